@@ -142,13 +142,21 @@ def registration_stream(ctx, by_id_out, cov):
             todo.append([dict(r) for r in reversed(seq)])      # the same registrations in the opposite order
         for sq in todo:
             cases.append({"id": len(cases), "reqs": sq})
+            if len(cases) % 3 == 0:        # the same registrations at the quietest log level: duplicates are dropped, not refused
+                cases.append({"id": len(cases), "reqs": [dict(r) for r in sq], "quiet": True})
             profs[prof] = profs.get(prof, 0) + 1
             for k in reg_classes(sq):
                 classes[k] = classes.get(k, 0) + 1
     binp = vlib.go_build(ctx, "./cmd/c07reg")
-    rc, res, raw = vlib.run_json(binp, {"cases": cases})
-    if res is None:
-        raise vlib.GoBuildError("./cmd/c07reg (run)", raw[-2000:])
+    # the log level is fixed per process (cached prefix loggers): one driver run per level, merged by id
+    res = {"outs": [None] * len(cases)}
+    for quiet in (False, True):
+        part = [c for c in cases if bool(c.get("quiet")) == quiet]
+        rc, r1, raw = vlib.run_json(binp, {"cases": part, "quiet": quiet})
+        if r1 is None or len(r1.get("outs") or []) != len(part):
+            raise vlib.GoBuildError("./cmd/c07reg (run)", raw[-2000:])
+        for c, o in zip(part, r1["outs"]):
+            res["outs"][c["id"]] = o
     ids = {}
 
     def nid(sname):
@@ -167,17 +175,20 @@ def registration_stream(ctx, by_id_out, cov):
                 custom = "(Some %d)" % nid("??" + regname)   # forces a mismatch
             reqs.append("(mkReq %d %s %d)" % (r["inst"], custom, default))
         reqs = reqs[:len(o["outs"] or [])]
-        outs = [{"ok": 0, "same": 1, "panic": 2}[x] for x in (o["outs"] or [])]
+        outs = [{"ok": 0, "same": 1, "panic": 2, "dropped": 2}[x] for x in (o["outs"] or [])]
+        if c.get("quiet") and "panic" in (o["outs"] or []) or (not c.get("quiet")) and "dropped" in (o["outs"] or []):
+            outs = outs + [9]              # a panic at the quiet level / a silent drop at the loud one: forces a mismatch
         final = ["(%d, %d)" % (nid(nm), inst) for nm, inst in zip(o["final"] or [], o["finalin"] or [])]
-        terms.append("(mkRC %d %s %s %s)" % (c["id"], vlib.coq_list(reqs), vlib.coq_list(map(str, outs)) + "%nat",
-                                            vlib.coq_list(final)))
+        terms.append("(mkRC %d %s %s %s %s)" % (c["id"], vlib.coq_list(reqs), vlib.coq_list(map(str, outs)) + "%nat",
+                                               vlib.coq_list(final), "true" if c.get("quiet") else "false"))
     out = vlib.coq_eval_sharded(ctx, "cases_c07reg", REG_HEADER, terms,
                                 {"RM": "rmismatches", "RV": "rviolations", "RNT": "rnontrivial"})
     ctx.oblige("registration correspondence mismatches = []", not out["RM"], "%d disagreeing" % len(out["RM"]))
     ctx.oblige("registration oracle (one instance per name, first registrant keeps it)", not out["RV"],
                "%d failing" % len(out["RV"]))
     cov["registration_sequences"] = len(cases)
-    cov["registration_nontrivial"] = sum(out["RNT"])
+    cov["registration_nontrivial"] = out["RNT"][0::2] and sum(out["RNT"][0::2])
+    cov["registration_quiet_level_with_dropped_duplicate"] = sum(out["RNT"][1::2])
     outs = {}
     for o in res["outs"]:
         for x in o["outs"] or []:
